@@ -12,9 +12,12 @@
 //	wg.Add(n)  once.Do(f)  atomic.F(...)  f.Load()/Store()/Add()/Swap()/CompareAndSwap() on atomic fields
 //	ch <- v    close(ch)   select { ... }
 //
-// and as the first statement of every `go func() { ... }()` literal. Receives
-// and range-over-channel loops are left to the hand-placed hooks. Deferred
-// calls are not instrumented. The analysis is syntactic (no type checking), so
+//	<-ch (receive)
+//
+// as the first statement of every `go func() { ... }()` literal, and as the first
+// statement of the body of a `for ... range ch` loop over a name that is declared
+// as a channel or assigned from make(chan ...). Deferred calls are not
+// instrumented; a statement that already follows or is a hook is left alone. The analysis is syntactic (no type checking), so
 // it also works on code that was just edited.
 package main
 
@@ -40,7 +43,61 @@ var atomicMethods = map[string]bool{"Load": true, "Store": true, "Add": true, "S
 type pkgInfo struct {
 	dir          string
 	atomicFields map[string]bool // field / variable names declared with an atomic.* type
+	chanNames    map[string]bool // names declared with a channel type or assigned from make(chan ...)
 	hasSimYield  bool
+}
+
+func isChanType(e ast.Expr) bool {
+	switch t := e.(type) {
+	case *ast.ChanType:
+		return true
+	case *ast.ParenExpr:
+		return isChanType(t.X)
+	}
+	return false
+}
+
+func isMakeChan(e ast.Expr) bool {
+	c, ok := e.(*ast.CallExpr)
+	if !ok || len(c.Args) == 0 {
+		return false
+	}
+	id, ok := c.Fun.(*ast.Ident)
+	return ok && id.Name == "make" && isChanType(c.Args[0])
+}
+
+// collectChans records every name that is (by declaration or by make) a channel.
+func (p *pkgInfo) collectChans(f *ast.File) {
+	ast.Inspect(f, func(x ast.Node) bool {
+		switch t := x.(type) {
+		case *ast.Field:
+			if isChanType(t.Type) {
+				for _, nm := range t.Names {
+					p.chanNames[nm.Name] = true
+				}
+			}
+		case *ast.ValueSpec:
+			if t.Type != nil && isChanType(t.Type) {
+				for _, nm := range t.Names {
+					p.chanNames[nm.Name] = true
+				}
+			}
+			for i, v := range t.Values {
+				if isMakeChan(v) && i < len(t.Names) {
+					p.chanNames[t.Names[i].Name] = true
+				}
+			}
+		case *ast.AssignStmt:
+			for i, v := range t.Rhs {
+				if isMakeChan(v) && i < len(t.Lhs) {
+					if n := lastIdent(t.Lhs[i]); n != "" {
+						p.chanNames[n] = true
+					}
+				}
+			}
+		}
+		return true
+	})
 }
 
 func lastIdent(e ast.Expr) string {
@@ -117,6 +174,10 @@ func (p *pkgInfo) directSync(s ast.Stmt, imports map[string]bool) bool {
 				return false
 			case *ast.CallExpr:
 				if p.isSyncCall(t, imports) {
+					found = true
+				}
+			case *ast.UnaryExpr:
+				if t.Op == token.ARROW { // channel receive
 					found = true
 				}
 			}
@@ -213,6 +274,13 @@ func (p *pkgInfo) instrumentFile(fset *token.FileSet, f *ast.File, rel string) i
 			t.Body = p.instrumentList(fset, t.Body, rel, imports, &n)
 		case *ast.CommClause:
 			t.Body = p.instrumentList(fset, t.Body, rel, imports, &n)
+		case *ast.RangeStmt:
+			if p.chanNames[lastIdent(t.X)] && t.Body != nil {
+				if len(t.Body.List) == 0 || !isHook(t.Body.List[0]) {
+					t.Body.List = append([]ast.Stmt{hookStmt(fset, t.Body.Pos(), rel+":range")}, t.Body.List...)
+					n++
+				}
+			}
 		case *ast.GoStmt:
 			if fl, ok := t.Call.Fun.(*ast.FuncLit); ok && fl.Body != nil {
 				if len(fl.Body.List) == 0 || !isHook(fl.Body.List[0]) {
@@ -246,7 +314,7 @@ func main() {
 			fmt.Fprintln(os.Stderr, "instrument: parse", pk, err)
 			os.Exit(1)
 		}
-		info := &pkgInfo{dir: dir, atomicFields: map[string]bool{}}
+		info := &pkgInfo{dir: dir, atomicFields: map[string]bool{}, chanNames: map[string]bool{}}
 		var pkgName string
 		for name, p := range parsed {
 			if strings.HasSuffix(name, "_test") {
@@ -254,6 +322,7 @@ func main() {
 			}
 			pkgName = name
 			for _, f := range p.Files {
+				info.collectChans(f)
 				ast.Inspect(f, func(x ast.Node) bool {
 					switch t := x.(type) {
 					case *ast.Field:
